@@ -12,6 +12,7 @@ import (
 	"strings"
 	"sync"
 	"sync/atomic"
+	"time"
 
 	sse "github.com/tmaxmax/go-sse"
 
@@ -103,8 +104,45 @@ var baseReq, _ = http.NewRequest(http.MethodGet, "http://verif.invalid/events", 
 
 // RunWith executes the case with the given reader (C20 counts what is pulled from it). ownBuf: give the
 // Connection a small buffer of its own instead of nil.
+// rtFailFirst fails the first attempt in the transport and serves the body on the second.
+type rtFailFirst struct {
+	body io.Reader
+	n    int
+}
+
+func (t *rtFailFirst) RoundTrip(req *http.Request) (*http.Response, error) {
+	t.n++
+	if t.n != 2 {
+		// (a connection that was established resets the retry count, so everything after the second attempt
+		// fails as well: Connect then gives up)
+		return nil, errors.New("scripted transport failure")
+	}
+	return rt{t.body}.RoundTrip(req)
+}
+
+// RunWith: capOnly[0]: the limit is given by the capacity of the buffer alone; capOnly[1]: the Connection is
+// configured late - Buffer(nil, M) is called from OnRetry after a first, failed attempt.
 func RunWith(c Case, r io.Reader, ownBuf bool, capOnly ...bool) ([]sse.Event, error) {
 	var events []sse.Event
+	if c.Conn && len(capOnly) > 1 && capOnly[1] {
+		var conn *sse.Connection
+		tr := &rtFailFirst{body: r}
+		var streamErr error // how the attempt that served the stream ended (Connect itself returns a later failure)
+		cl := sse.Client{HTTPClient: &http.Client{Transport: tr}, ResponseValidator: sse.NoopValidator,
+			Backoff: sse.Backoff{MaxRetries: 1, InitialInterval: 1, Jitter: -1},
+			OnRetry: func(err error, _ time.Duration) {
+				if tr.n == 2 {
+					streamErr = err
+				}
+				if c.MaxSize > 0 {
+					conn.Buffer(nil, c.MaxSize)
+				}
+			}}
+		conn = cl.NewConnection(baseReq)
+		conn.SubscribeToAll(func(e sse.Event) { events = append(events, e) })
+		_ = conn.Connect()
+		return events, streamErr
+	}
 	if c.Conn {
 		cl := sse.Client{HTTPClient: &http.Client{Transport: rt{r}}, ResponseValidator: sse.NoopValidator, Backoff: sse.Backoff{MaxRetries: -1}}
 		conn := cl.NewConnection(baseReq)
